@@ -263,6 +263,19 @@ class Session(BusSession):
             self.state[l] = 'closed'
             return
         other = others[0] if others else None
+        # unique names cannot be requested: not one's own, not a live peer's, not one whose connection has gone, not one the
+        # bus has not handed out yet -- "never given to another connection for the lifetime of the bus"
+        live = {self.uname[x] for x in list(self.registered()) + ['O', 'M'] if self.uname.get(x)}
+        gone = sorted(self.issued - live)
+        for target in [self.uname[l]] + ([self.uname[other]] if other else []) + gone[:2] + [b':1.4711', b':7.1']:
+            for flags in (0, 7):
+                s_, rep = self.method(l, 'RequestName', [R.S(target), R.U(flags)])
+                self.hit('request-unique-name')
+                if rep is None or rep.kind != R.MT_ERROR:
+                    out.append(Violation('unique-name', 'requestable', '%s: RequestName(%r, %d) answered %r instead of an error' % (l, target, flags, rep), None))
+                    return
+        for x in list(self.inbox):
+            self.take(x)
         for kind in KINDS:
             for target in TARGETS:
                 if target in ('unique', 'wellknown') and other is None:
